@@ -7,6 +7,7 @@ func init() {
 	vHarness["C10_reader"] = VerifHarness_C10_reader
 	vHarness["C09_loader"] = VerifHarness_C09_loader
 	vHarness["C09_assembler"] = VerifHarness_C09_assembler
+	vHarness["C09_names"] = VerifHarness_C09_names
 }
 
 // one line of a (possibly corrupted) load file; returns the text (without
@@ -351,5 +352,50 @@ func VerifHarness_C09_assembler() {
 		vAssert("roundtrip-instruction", vSameInstr(w.Code[i], d.Code[i]))
 	}
 	vAssert("roundtrip-entry-point", w.Start == d.Start)
+	vReach("end")
+}
+
+// every mnemonic and modifier name of the dialect, upper and lower case,
+// through the reader and through the assembler (fixed modes and fields)
+func VerifHarness_C09_names() {
+	legacy := vParam("legacy") == 1
+	M := Address(8000)
+	cfg := NewQuickConfig(ICWS94, M, 8, 100, 1)
+	if legacy {
+		cfg.Mode = ICWS88
+	}
+	var ins Instruction
+	ins.Op = OpCode(vPick("op", 0, 16))
+	ins.AMode, ins.BMode = DIRECT, B_INDIRECT
+	if ins.Op == DAT {
+		ins.AMode, ins.BMode = IMMEDIATE, B_DECREMENT
+	}
+	if legacy {
+		ok, md := refLegal88(ins.Op, ins.AMode, ins.BMode)
+		vAssume(ok)
+		ins.OpMode = md
+	} else {
+		ins.OpMode = OpMode(vPick("opmode", 0, 6))
+	}
+	ins.A, ins.B = 5, 7993
+	name := vOpNamesUpper[ins.Op]
+	if !legacy {
+		name += "." + vModNamesUpper[ins.OpMode]
+	}
+	if vPick("lower", 0, 1) == 1 {
+		name = vLower(name)
+	}
+	text := name + " " + vModeNames[ins.AMode] + " 5, " + vModeNames[ins.BMode] + " -7\n"
+	w, err := ParseLoadFile(vTextReader(text), cfg)
+	vAssert("name-read-by-loader", err == nil && len(w.Code) == 1)
+	if err == nil && len(w.Code) == 1 {
+		vAssert("loader-name-roundtrip", vSameInstr(w.Code[0], ins))
+	}
+	vUnwind(400)
+	w2, err2 := CompileWarrior(vTextReader(text), cfg)
+	vAssert("name-read-by-assembler", err2 == nil && len(w2.Code) == 1)
+	if err2 == nil && len(w2.Code) == 1 {
+		vAssert("assembler-name-roundtrip", vSameInstr(w2.Code[0], ins))
+	}
 	vReach("end")
 }
